@@ -18,7 +18,7 @@ class Interp(ExprMixin, StmtMixin, CallMixin, _Base):
     pass
 
 
-OPAQUE_STR = {'str.join', 'str.strip', 'str.replace', 'str.format', 'str.lower', 'str.upper', 'str.rstrip', 'str.lstrip', 'os.linesep', 'os.path.join',
+OPAQUE_STR = {'md5.hexdigest', 'str.join', 'str.strip', 'str.replace', 'str.format', 'str.lower', 'str.upper', 'str.rstrip', 'str.lstrip', 'os.linesep', 'os.path.join',
               'os.path.normpath', 'os.path.dirname', 'os.path.expanduser', 'os.getcwd', 'str.hex'}
 BUILTIN_CLASSES = ['list', 'dict', 'pset', 'set', '$box', 'tuple', 'function', 'object', 'module', 'NoneType']
 BUILTIN_NAMES = {'isinstance', 'len', 'str', 'int', 'bool', 'list', 'dict', 'tuple', 'set', 'type', 'object', 'id',
@@ -293,6 +293,8 @@ class Engine:
             return self.module_attr(it, ModV('pkg:awesomeyaml/errors.py'), name, node)
         if full in ('os.path', 'yaml.error'):
             return ModV(full)
+        if full == 'sys.modules':
+            return OpaqueV('sys.modules')
         return BuiltinV(full)
 
     def class_const(self, it, ci, name, expr, node):
@@ -315,6 +317,9 @@ class Engine:
         it.unsupported(node, what)
 
     def opaque_contains(self, it, cont, item, n):
+        if cont.tag == 'sys.modules':
+            f = z3.Function('InSysModules', z3.StringSort(), z3.BoolSort())
+            return f(sym.s_of(it.sv(item, n).t))
         if cont.tag == 'dir':
             # `name in dir(type(self))`: uninterpreted predicate of the class and the name
             f = z3.Function('InDir', sym.I, Val, z3.BoolSort())
@@ -322,8 +327,25 @@ class Engine:
             if isinstance(tv, OpaqueV) and tv.tag == 'typeof':
                 return f(it.heap.cls(sym.r_of(tv.payload.t)), it.sv(item, n).t)
         self._no(it, n, f'membership in {cont!r}')
-    def opaque_getitem(self, it, v, k, n): self._no(it, n, f'subscript of {v!r}')
-    def opaque_setitem(self, it, v, k, x, n): self._no(it, n, f'item store on {v!r}')
+    def opaque_getitem(self, it, v, k, n):
+        if v.tag == 'sys.modules':
+            # some module object registered earlier in this process: nothing is known about its namespace
+            r = it.run.alloc('module')
+            d = it.run.alloc('dict')
+            md = MapT.fresh(f'moddict!{it.run.nfresh}')
+            it.heap.put_m(d, md)
+            it.run.nfresh += 1
+            kk = z3.Const('!mdk', Val)
+            it.run.assume(z3.And(md.len >= 0, z3.ForAll([kk], z3.And(z3.Select(md.pos, kk) >= -1, z3.Select(md.pos, kk) < md.len))))     # a real dict
+            it.heap.put('$dict', r, sym.mk_ref(d))
+            return SV(sym.mk_ref(r), hint=frozenset(['module']))
+        self._no(it, n, f'subscript of {v!r}')
+
+    def opaque_setitem(self, it, v, k, x, n):
+        if v.tag == 'sys.modules':
+            it.run.event('register-module', lineno=getattr(n, 'lineno', None), args=[k, x], index=len(it.run.events))
+            return
+        self._no(it, n, f'item store on {v!r}')
     def opaque_iter(self, it, v, n, fr): self._no(it, n, f'iteration over {v!r}')
     def opaque_len(self, it, v, n): self._no(it, n, f'len of {v!r}')
     def opaque_isinstance(self, it, v, nm, n): return z3.BoolVal(False)
